@@ -30,7 +30,8 @@ Replay ==
        [] E.op = "br"       -> Branch(E.seq, E.pos, E.d, FALSE)
        [] E.op = "brif"     -> Branch(E.seq, E.pos, E.d, TRUE)
 
-NoSigma == [func |-> <<>>, table |-> <<>>, memory |-> <<>>, global |-> <<>>, elem |-> <<>>, data |-> <<>>]
+\* the built module has two tables, two memories, one element and one data segment, emitted in the order they were added
+NoSigma == [func |-> <<>>, table |-> <<0, 1>>, memory |-> <<0, 1>>, global |-> <<>>, elem |-> <<0>>, data |-> <<0>>]
 Ctx == [inlocals |-> AbsLocals, outlocals |-> H.outlocals, nparams |-> 2]
 
 RECURSIVE MatchFrom(_, _, _, _)
